@@ -233,9 +233,28 @@ def slot_order_stream(rnd):
     return out, [], {"slot-order:" + kind: 1}
 
 
+def interned_dup_stream(rnd):
+    """2.4-2.7: the same interned string written twice with 't' (marshal.c appends both), then 'R' references to every index"""
+    strs = [b"ab", b"cd", b"ab", b"ef", b"cd"][: rnd.randrange(3, 6)]
+    out = [ord("("), 0, 0, 0, 0]
+    items = 0
+    for b in strs:
+        out += [ord("t")] + le32(len(b)) + list(b)
+        items += 1
+    refs = list(range(len(strs)))
+    rnd.shuffle(refs)
+    for i in refs:
+        out += [ord("R")] + le32(i)
+        items += 1
+    out[1:5] = le32(items)
+    return out, [], {"interned-dup": 1}
+
+
 def stream(rnd, fam):
     if FAMS[fam]["v34"] and rnd.random() < 0.08:
         return slot_order_stream(rnd)
+    if FAMS[fam]["interned"] and rnd.random() < 0.06:
+        return interned_dup_stream(rnd)
     e = Enc(rnd, fam)
     e.gen(0)
     return e.out, sorted((list(k), v) for k, v in e.ft.items()), e.kinds
